@@ -739,10 +739,14 @@ void __redu_lcd_progress(
   if (cols <= 0) {
     return;
   }
-  if (width <= 0 || width > cols) {
+  if (width < 1) {
+    width = 1;
+  }
+  if (width > cols) {
     width = cols;
   }
   if (max_value <= 0) {
+    value = 0;
     max_value = 1;
   }
   if (value < 0) {
